@@ -4,7 +4,7 @@
    write(2); named outputs go through a std::ofstream whose state nobody checks.  For descriptor outputs the detection half of
    the property is proved; for named outputs and for recovery under persistent failure the property is REFUTED on the faithful
    model - these are genuine defects of CZ-NIC/c-dns recorded as known findings (known_findings.json).  Only statements here. *)
-Require Import Base Cbor EncoderModel DecoderModel Schema Block Exporter Writer WriterProofs BlockRead FileProofs ExporterIO ExporterFaults ExporterFaultsProofs.
+Require Import Base Cbor EncoderModel DecoderModel Schema Block Exporter Writer WriterProofs BlockRead FileProofs ExporterIO ExporterIOProofs ExporterFaults ExporterFaultsProofs.
 Local Open Scope N_scope.
 
 (* descriptor outputs: over every history of writes and rotations and every byte budget per output, an output that lost bytes
@@ -103,6 +103,22 @@ Theorem C16_exporter_persistent_refuted : forall s, os_plan (f_os s) = [] -> os_
              buf (x_enc (f_x s1)) <> [] /\ x_blk (f_x s1) = x_blk (f_x s).
 Proof. exact persistent_failure_no_recovery. Qed.
 Print Assumptions C16_exporter_persistent_refuted.
+
+(* consistency of the two models: when the operating system accepts everything, the exporter under faults IS the fault-free exporter - every
+   call returns normally with the count [xstep] returns and leaves [xstep]'s state - and what the descriptors hold is what the fault-free
+   theory says the outputs are (the open one: what the encoder has handed over; the closed ones: [x_closed]).  So every theorem about
+   [xrun] (C01, C02, C10, C12, C13) speaks about the runs of this model on a healthy system *)
+Theorem C16_healthy_is_fault_free : forall s o, healthy (f_os s) ->
+  exists cur' closed', fstep s o = (mkFx (fst (xstep (f_x s) o)) (f_os s) cur' (match o with XRot _ => false | _ => f_threw s end) closed', Done, snd (xstep (f_x s) o)).
+Proof. exact fstep_healthy. Qed.
+Print Assumptions C16_healthy_is_fault_free.
+Theorem C16_healthy_outputs : forall s o, healthy (f_os s) -> d_ok (f_x s) (f_cur s) ->
+  let s' := fst (fst (fstep s o)) in
+  d_ok (f_x s') (f_cur s') /\
+  map (fun ot => d_stored (fst ot)) (f_closed s') =
+    firstn (length (x_closed (f_x s')) - length (x_closed (f_x s))) (x_closed (f_x s')) ++ map (fun ot => d_stored (fst ot)) (f_closed s).
+Proof. exact fstep_healthy_outputs. Qed.
+Print Assumptions C16_healthy_outputs.
 
 (* non-vacuity: a record with a 3000-byte name (its block spans two staging buffers); the first write(2) of the scenario is rejected once:
    write_block() throws, the rotation and the second write_block() return, one output is closed with the loss reported, and the recovery
